@@ -11,6 +11,9 @@ TRUSTED = [
     "Coq 8.16.1 kernel (coqc, full .vo build); vm_compute for the non-vacuity Examples and case evaluation",
     "hand model Model/Runner.v (cases branch of combo_runner_core, nan_like_result / infer_shape in RunnerInst.v), "
     "tied to the code by differential execution",
+    "translator gen_runner.py: the prologue of combo_runner_core (argument names / per-case value tuples read by "
+    "name in the key order of the first case; overlap guard before anything runs), _unflatten and the duplicate "
+    "test are pinned to their transcriptions; run / results / info data flow regenerated (C02_code_tie)",
     "swept values are mapped to integers that preserve Python's sort order; unsortable mixtures (TypeError "
     "fallback to arbitrary set order) are outside the guard `sortable` and not generated",
     "xarray.full_like for dict/Dataset placeholders is library behaviour: modelled as 'all-NaN dataset' (test only)",
@@ -80,6 +83,9 @@ def run(tier, seed):
     gen_st = core.regen()
     b = core.build(PROP_FILE)
     c.cov["build"] = {"ok": b["ok"], "failed_file": b["failed_file"], "wall_s": round(b.get("wall_s", 0), 1)}
+    c.cov["translator"] = {k: v for k, v in gen_st.items() if k in ("GenRunner",)}
+    if "GenRunner" in gen_st and not gen_st["GenRunner"]["ok"]:
+        c.obligation_broken("translator GenRunner", gen_st["GenRunner"]["detail"])
     if not b["ok"]:
         c.obligation_broken(f"Coq build of {b['failed_file']}", b["log_tail"][-1200:])
     tmp = core.scratch_dir("xv-c02-")
